@@ -1350,3 +1350,61 @@ fn dsp(){
         assert!(result.is_ok(), "emit_mir failed: {result:?}");
     }
 }
+
+/// Verification hook (off by default, `--cfg mimium_rs_verif`): exposes the private live-coding
+/// glue of [`FileRunner`] to a simulator that plays file watcher and audio hardware. Every method
+/// forwards to the real code; nothing here is used by the shipped binary.
+#[cfg(all(mimium_rs_verif, not(target_arch = "wasm32")))]
+pub mod verif_hooks {
+    use super::*;
+
+    pub struct SimFileRunner(FileRunner);
+
+    impl SimFileRunner {
+        /// `FileRunner::new` as `run_file` calls it for the native VM backend.
+        pub fn new_vm(
+            compiler: compiler::Context,
+            path: PathBuf,
+            prog_tx: Option<mpsc::Sender<ProgramPayload>>,
+        ) -> Self {
+            Self(FileRunner::new(compiler, path, prog_tx, false, None, None))
+        }
+
+        /// `FileRunner::new` as `run_file` calls it for the WASM backend.
+        pub fn new_wasm(
+            compiler: compiler::Context,
+            path: PathBuf,
+            prog_tx: Option<mpsc::Sender<ProgramPayload>>,
+            dsp_state_skeleton: Option<StateTreeSkeleton<StateType>>,
+            ext_fns: Vec<ExtFunTypeInfo>,
+            plugin_fns: Option<mimium_lang::runtime::wasm::WasmPluginFnMap>,
+            retired_engine_receiver: Option<
+                mpsc::Receiver<mimium_lang::runtime::wasm::engine::WasmEngine>,
+            >,
+        ) -> Self {
+            Self(FileRunner::new(
+                compiler,
+                path,
+                prog_tx,
+                true,
+                Some(OldWasmProgram {
+                    dsp_state_skeleton,
+                    ext_fns,
+                    plugin_fns,
+                }),
+                retired_engine_receiver,
+            ))
+        }
+
+        /// What `cli_loop` does for one file event that passes `should_recompile_on_event`.
+        pub fn on_file_event(&self) {
+            self.0.drain_retired_engines();
+            self.0.recompile_file();
+        }
+
+        /// The periodic drain of `cli_loop` when no event arrives.
+        pub fn on_idle(&self) {
+            self.0.drain_retired_engines();
+        }
+    }
+}
